@@ -321,6 +321,17 @@ def execute(topo, op):
         return topo.remove_node(op['name'])
     if o == 'add_component':
         n = get_node(topo, op['node'])
+        if op.get('ns_info') is not None:
+            # a component described together with services of its own (the network_service_info property of its sliver)
+            from fim.slivers.network_service import NetworkServiceSliver, NetworkServiceInfo
+            nsi = NetworkServiceInfo()
+            for nm, ty, nid in op['ns_info']:
+                sl = NetworkServiceSliver()
+                sl.set_name(nm)
+                sl.set_type(ServiceType[ty])
+                sl.node_id = nid
+                nsi.add_network_service(sl)
+            kw['network_service_info'] = nsi
         if op.get('model_type'):
             return n.add_component(name=op['name'], node_id=op.get('node_id'), model_type=ComponentModelType[op['model_type']],
                                    network_service_node_id=op.get('ns_node_id'), interface_node_ids=op.get('if_node_ids'),
@@ -544,6 +555,19 @@ class Gen:
                                          'kw': {'labels': {'vlan': str(vlan)}}, 'cached': cached}
         return [mk(a, v, True), mk(b, v + 1, False), mk(b, v + 2, True), mk(c, v + 1, True)]
 
+    def swap_through_other_handle_macro(self):
+        """A caller keeps the handle add_network_service() returned; through a handle looked up later one interface is taken off
+        the service and another one connected (as many as before, other ones)."""
+        tm = tm_of(self.topo)
+        free = [ref for ref, i in self.iface_refs(tm, only_free=True, with_subs=False) if tm.typ(i) in ('DedicatedPort', 'SharedPort')]
+        if len(free) < 3:
+            return []
+        a, b, c = self.rng.sample(free, 3)
+        name = self.fresh('swp')
+        return [{'op': 'add_network_service', 'name': name, 'node_id': self.maybe_id('ns'), 'nstype': 'L2Bridge', 'interfaces': [a, b], 'kw': {}},
+                {'op': 'disconnect_interface', 'service': name, 'iface': a, 'cached': False},
+                {'op': 'connect_interface', 'service': name, 'iface': c, 'cached': False}]
+
     def same_named_ifaces_macro(self):
         """Interface names are unique within their service only: two services of one node each get an interface of one name.
         (Only where the caller asked for it: afterwards [node, name] no longer names ONE interface, which the removal checks rely on.)"""
@@ -596,8 +620,10 @@ class Gen:
                 self.pending = self.same_named_ifaces_macro()
             elif m < 0.45:
                 self.pending = self.derived_link_name_macro()
+            elif m < 0.6:
+                self.pending = self.swap_through_other_handle_macro()
             else:
-                self.pending = self.recycle_name_macro() if m < 0.8 else self.two_handles_macro()
+                self.pending = self.recycle_name_macro() if m < 0.85 else self.two_handles_macro()
             if self.pending:
                 return self.pending.pop(0)
         op = self._next_op()
